@@ -691,6 +691,14 @@ def pd_exact(prog: Program) -> RuleResult:
     return r
 
 
+def _pd_alias(prog):
+    # 'the field values agree with the graph's relations': assigning the field to itself (x.f = x.f, x.f += [...]) re-adds the elements from a
+    # snapshot - taken from the very container that is cleared next, the field ends up empty while the graph keeps every relation
+    from .c16 import pd_alias
+
+    return pd_alias(prog)
+
+
 def pd_role_taker(prog: Program) -> RuleResult:
     """'On the role taker when the super-property lives there': which object that is, is said by the diagram - the edge of kind HasRoleTaker, made
     for the field the class names in Role[...].  A class can have other required, single-valued references (a department's firm, a job's
@@ -734,4 +742,4 @@ def pd_role_taker(prog: Program) -> RuleResult:
 
 
 def run(prog: Program, tier: str) -> List[RuleResult]:
-    return [guard(lambda: _rel_edges(prog)), guard(lambda: _sg_purge(prog)), guard(lambda: pd_field(prog)), guard(lambda: pd_first_assign(prog)), guard(lambda: pd_closure(prog)), guard(lambda: pd_owner(prog)), guard(lambda: pd_supers(prog)), guard(lambda: _mc_eq(prog)), guard(lambda: pd_replace(prog)), guard(lambda: pd_init(prog)), guard(lambda: user_truth(prog, ["property_descriptor.property_descriptor", "property_descriptor.monitored_container", "property_descriptor.property_descriptor_relation"], 2)), guard(lambda: pd_exact(prog)), guard(lambda: pd_role_taker(prog))]
+    return [guard(lambda: _rel_edges(prog)), guard(lambda: _sg_purge(prog)), guard(lambda: pd_field(prog)), guard(lambda: pd_first_assign(prog)), guard(lambda: pd_closure(prog)), guard(lambda: pd_owner(prog)), guard(lambda: pd_supers(prog)), guard(lambda: _mc_eq(prog)), guard(lambda: pd_replace(prog)), guard(lambda: pd_init(prog)), guard(lambda: user_truth(prog, ["property_descriptor.property_descriptor", "property_descriptor.monitored_container", "property_descriptor.property_descriptor_relation"], 2)), guard(lambda: pd_exact(prog)), guard(lambda: pd_role_taker(prog)), guard(lambda: _pd_alias(prog))]
